@@ -253,10 +253,9 @@ struct PHist {
                 WsLedger L = ws.Ledger();
                 COutPoint coin = !L.coins.empty() && s.chance(200) ? std::next(L.coins.begin(), s.index(L.coins.size()))->first : COutPoint(Txid::FromUint256(uint256(uint8_t(1 + s.range<unsigned>(0, 3)))), s.range<uint32_t>(0, 2));
                 if (kind == 10) {
-                    // generator restriction: this target never locks a coin that is already locked (re-locking to change the persistence is explored
-                    // separately by c43_lockcoins, so that whatever that finds cannot mask the rest of the histories)
-                    if (model_locks.count(coin)) continue;
+                    // lockunspent refuses only a NON-persistent lock request for an already locked coin; re-locking with persistence is allowed
                     const bool persist = s.chance(176);
+                    if (model_locks.count(coin) && !persist) continue;
                     begin_op("lockcoin", false);
                     WITH_LOCK(ws.wallet().cs_wallet, ws.wallet().LockCoin(coin, persist));
                     end_op("lockcoin");
